@@ -119,6 +119,8 @@ CONFIGS_QUICK = [
     {"S": 'x\\y"z', "M": "9"},
     {"NEWP": "y", "NEWI": "n"},
     {"NEWP": "y", "ADDED": "4", "U": "6", "P_RM": "n"},
+    # differs from the default configuration only in the option written LAST (auto.conf becomes a strict prefix)
+    {"P_RM": "n"},
 ]
 CONFIGS_WIDE = CONFIGS_QUICK  # index space shared by all tiers
 
